@@ -689,7 +689,10 @@ class Sym:
     def ceil(self):
         if self.e.is_int():
             return self
-        return CeilSym(self.e)
+        a = _simp(self.e)
+        if z3.is_to_real(a) or z3.is_int_value(a) or (z3.is_rational_value(a) and a.denominator_as_long() == 1):
+            return Sym(a)  # already integer valued
+        return CeilSym(a)
 
     __ceil__ = ceil
 
@@ -698,6 +701,8 @@ class Sym:
             return self
         E = engine()
         arg = _simp(self.e)
+        if z3.is_to_real(arg) or z3.is_int_value(arg):
+            return Sym(arg)
         key = ("floor", arg.get_id())
         if key in E.fn_cache:
             return E.fn_cache[key][1]
